@@ -1,9 +1,11 @@
 package main
 
 import (
+	"bufio"
 	"encoding/json"
 	"errors"
 	"fmt"
+	"net"
 	"net/http"
 	"net/http/httptest"
 	"net/url"
@@ -122,6 +124,10 @@ func newPoolRouter(hook bool) *poolRouter {
 				c.WriteString("abc")
 			case "resp":
 				c.Resp = httptest.NewRecorder()
+			case "hijack":
+				if hj, ok := c.Resp.(http.Hijacker); ok {
+					_, _, _ = hj.Hijack()
+				}
 			case "req":
 				c.Req = c.Req.Clone(c.Req.Context())
 			}
@@ -142,16 +148,22 @@ func (pr *poolRouter) serve(q *poolReq) (obs *poolObs, code int, body string) {
 	path := map[string]string{"static": "/s", "dynamic": "/d/7", "notfound": "/missing", "notallowed": "/p", "panic": "/boom",
 		"panichook": "/boom", "foreign": "/s"}[q.Kind]
 	w := httptest.NewRecorder()
+	var rw http.ResponseWriter = w
+	for _, m := range q.Muts {
+		if m == "hijack" {
+			rw = &hijackableRecorder{w}
+		}
+	}
 	req := &http.Request{Method: "GET", URL: &url.URL{Path: path}, Header: http.Header{}, Proto: "HTTP/1.1"}
-	pr.cur, pr.obs, pr.w, pr.req = q, nil, w, req
+	pr.cur, pr.obs, pr.w, pr.req = q, nil, rw, req
 	func() {
 		defer func() { _ = recover() }()
 		if q.Kind == "foreign" {
 			c := &rux.Context{}
-			c.Init(w, req)
+			c.Init(rw, req)
 			pr.r.HandleContext(c)
 		} else {
-			pr.r.ServeHTTP(w, req)
+			pr.r.ServeHTTP(rw, req)
 		}
 	}()
 	poolRequests++
@@ -212,3 +224,8 @@ func poolReplay(s *Summary, raw json.RawMessage) {
 		s.mismatch(desc(fmt.Sprintf("last request observed %+v -> %d %q; on a fresh identical router %+v -> %d %q", *obs, code, body, *twinObs, twinCode, twinBody)), c)
 	}
 }
+
+// hijackableRecorder: a ResponseRecorder whose connection can be "hijacked" (nothing is really taken over)
+type hijackableRecorder struct{ *httptest.ResponseRecorder }
+
+func (h *hijackableRecorder) Hijack() (net.Conn, *bufio.ReadWriter, error) { return nil, nil, nil }
